@@ -4,7 +4,7 @@ CONSTANTS
   MaxMsgs = 10
   MaxOps = 4
   HopCounts = {0, 1, 2}
-  NbSendFails = FALSE
+  NbSendFails = TRUE
   ClearReadable = TRUE
-INVARIANTS ReplyRouting HoldSound NoLostWakeup PollR PollW
+INVARIANTS ReplyRouting HoldSound NoLostWakeup PollR
 ACTION_CONSTRAINT ExportEdge
